@@ -478,7 +478,7 @@ let handle (req : sexp) : String.t =
             let jac = (match jacobian o mt with Some j -> j | None -> []) in
             jobj ["status", jstr "ok";
                   "rhs", jlist (fun e -> jfloat (eval fops rho e)) es;
-                  "expanded", jbool (not (List.exists (mentions_inter o) es));
+                  "expanded", jbool (not (List.exists (mentions_assigned o) es));
                   "jac", jlist (fun row -> jlist (fun e -> jfloat (eval fops rho e)) row) jac]))
   | L [A "evalclosed"; es] ->
       let vals = List.map (fun e -> eval fops (fun _ -> nan) (expr_of e)) (lst es) in
